@@ -437,12 +437,13 @@ func (x *c07Gen) compositeWrites(cp *c07Comp, kind string, src string, head int)
 			panic(err)
 		}
 		var bounds []int
-		tot := 0
+		tot, headEnd := 0, 0
 		for i, cl := range sink.calls {
 			if head < 0 {
 				bounds = append(bounds, tot, tot+1+rg.intn(cl[0]))
 			} else if i < head {
 				bounds = append(bounds, tot+rg.intn(cl[0]+1))
+				headEnd = tot + cl[0]
 			}
 			tot += cl[0]
 		}
@@ -465,8 +466,8 @@ func (x *c07Gen) compositeWrites(cp *c07Comp, kind string, src string, head int)
 				continue
 			}
 			last = k
-			if head >= 0 && k < tot-1 && rg.intn(3) != 0 {
-				continue // big objects: a third of the boundaries per mode
+			if head >= 0 && k < tot-1 && k > headEnd && rg.coin() {
+				continue // big objects: every Write of the points, half of the others
 			}
 			if k >= tot || (rg.coin() && head < 0) {
 				emit(fmt.Sprintf("%x", k))
